@@ -1426,6 +1426,14 @@ func (p *Posix) CompleteMultipartUpload(ctx context.Context, input *s3.CompleteM
 		return nil, fmt.Errorf("stat bucket: %w", err)
 	}
 
+	// completing an upload replaces the object under the key exactly like
+	// PutObject does: consult the object lock first (done here and not in the
+	// controller, whose route never looked at the lock configuration)
+	err = auth.CheckObjectAccess(ctx, bucket, acct.Access, []types.ObjectIdentifier{{Key: &object}}, true, p)
+	if err != nil {
+		return nil, err
+	}
+
 	sum, err := p.checkUploadIDExists(bucket, object, uploadID)
 	if err != nil {
 		return nil, err
